@@ -77,6 +77,11 @@ def oracle(out, rng, n, sweep):
     return viol
 
 
+def scenario_oracle(sc, res):
+    import p_c04
+    return [x for x in p_c04.oracle(sc, res) if x['kind'] in ('lowest-name-does-not-keep', 'duplicate-address')]
+
+
 def run(out, tier, rng, work):
     out.rule = ('item-level correspondence: bit-walking/boundary/random inputs through the real classes vs the generated Coq '
                 'definitions (vm_compute); oracle: round-trip and SAE-position predicates on the real classes vs plain-arithmetic '
@@ -103,3 +108,29 @@ def run(out, tier, rng, work):
         out.violation('%s: input %s gives %s, expected %s' % (kind, inp, got, exp), dict(kind=kind),
                       dict(broke='oracle', oracle=kind, input=inp, observed=got, expected=exp,
                            how='python: see harness/p_c15.py oracle(); classes j1939.MessageId / ParameterGroupNumber / Name'))
+    # "the NAME comparison used in address arbitration is the comparison of these 64-bit values": two CAs contend for one
+    # address with NAMEs whose numeric order and byte-wise (little-endian) order disagree; the lower 64-bit value must keep it
+    import scen, p_c04, gen_ca, json as _json
+    worst = {}
+    for k in range(40 if tier == 'quick' else 600):
+        a = rng.getrandbits(64) & ~(1 << 48)
+        b = rng.getrandbits(64) & ~(1 << 48)
+        if k % 2 == 0:
+            # numeric order decided by a high byte, byte-wise order by the lowest byte (opposite)
+            hi, lo = rng.randrange(1, 255), rng.randrange(1, 255)
+            a = (a & ~(0xFF << 56) & ~0xFF) | (hi << 56) | (lo + 1 if lo < 255 else lo)
+            b = (a & ~(0xFF << 56) & ~0xFF) | ((hi + 1) << 56) | (lo - 1)
+        if a == b:
+            continue
+        addr = rng.choice(gen_ca.VETO)
+        stacks = [dict(dll='j1939-21', max_cmdt=1, subs=[], cas=[dict(name=nm, addr=addr, bypass=False, subs=[10 * i + 1], req=[10 * i + 2])]) for i, nm in enumerate((a, b))]
+        t2 = rng.choice([1000, 120000, 600000])
+        sc = dict(stacks=stacks, lat=[rng.choice([1, 5000])], jit=[1], horizon=5_000_000,
+                  script=[dict(t=1000, s=0, op='ca_start', ca=0, delay=0), dict(t=t2, s=1, op='ca_start', ca=0, delay=0)])
+        res = scen.run(sc)
+        out.add_case(('arbitration', a, b, addr, t2), True)
+        for x in p_c04.oracle(sc, res):
+            if x['kind'] in ('lowest-name-does-not-keep', 'duplicate-address') and x['kind'] not in worst:
+                worst[x['kind']] = (x, sc)
+    for kind, (x, sc) in worst.items():
+        out.violation('arbitration %s: %s' % (kind, _json.dumps(x, default=str)[:300]), dict(kind='arbitration-' + kind), dict(broke='oracle', scenario=sc, violation=x))
